@@ -347,3 +347,178 @@ V(id='c10-benign-extra-rounding', prop='C10', file='mpmath/libmp/libmpc.py',
 V(id='c10-benign-lower-intermediate', prop='C10', file='mpmath/libmp/libmpc.py',
   old="    wp = prec + 15\n    a = mpc_add(z, mpc_one, wp)", new="    wp = prec + 17\n    a = mpc_add(z, mpc_one, wp)",
   expect='silent')
+
+# ---------------------------------------------------------------- C06 -------
+V(id='c06-frac-rounded-floor', prop='C06', file='mpmath/libmp/libmpf.py',
+  old="    return mpf_sub(s, mpf_floor(s), prec, rnd)", new="    return mpf_sub(s, mpf_floor(s, prec, rnd), prec, rnd)",
+  expect='fire:B-R4:mpf_frac')
+V(id='c06-ceil-via-neg-floor', prop='C06', file='mpmath/libmp/libmpf.py',
+  old="    v = mpf_round_int(s, round_ceiling)\n    if prec:\n        v = mpf_pos(v, prec, rnd)\n    return v",
+  new="    return mpf_neg(mpf_floor(mpf_neg(s), prec, rnd))",
+  expect='fire:B-R3:mpf_ceil')
+V(id='c06-nint-direction', prop='C06', file='mpmath/libmp/libmpf.py',
+  old="    v = mpf_round_int(s, round_nearest)", new="    v = mpf_round_int(s, round_floor)",
+  expect='fire:H-C06:mpf_nint')
+V(id='c06-floor-unrounded', prop='C06', file='mpmath/libmp/libmpf.py',
+  old="    v = mpf_round_int(s, round_floor)\n    if prec:\n        v = mpf_pos(v, prec, rnd)\n    return v",
+  new="    v = mpf_round_int(s, round_floor)\n    return v",
+  expect='fire:B-R1:mpf_floor')
+V(id='c06-floor-ignores-rnd', prop='C06', file='mpmath/libmp/libmpf.py',
+  old="    v = mpf_round_int(s, round_floor)\n    if prec:\n        v = mpf_pos(v, prec, rnd)",
+  new="    v = mpf_round_int(s, round_floor)\n    if prec:\n        v = mpf_pos(v, prec)",
+  expect='fire:B-R3:mpf_floor')
+V(id='c06-mod-final-mode', prop='C06', file='mpmath/libmp/libmpf.py',
+  old="    return normalize(sign, man, base, bitcount(man), prec, rnd)\n\nreciprocal_rnd",
+  new="    return normalize(sign, man, base, bitcount(man), prec, round_down)\n\nreciprocal_rnd",
+  expect='fire:B-R3:mpf_mod')
+V(id='c06-ceil-wired-to-floor', prop='C06', file='mpmath/ctx_mp.py',
+  old="        ctx.ceil = ctx._wrap_libmp_function(libmp.mpf_ceil, libmp.mpc_ceil)",
+  new="        ctx.ceil = ctx._wrap_libmp_function(libmp.mpf_ceil, libmp.mpc_floor)",
+  expect='fire:H-C06:init_builtins')
+V(id='c06-int-rounds', prop='C06', file='mpmath/ctx_mp_python.py',
+  old="    def __int__(s): return int(to_int(s._mpf_))", new="    def __int__(s): return int(to_int(s._mpf_, round_nearest))",
+  expect='fire:H-C06:__int__')
+V(id='c06-benign-floor-refactor', prop='C06', file='mpmath/libmp/libmpf.py',
+  old="    v = mpf_round_int(s, round_floor)\n    if prec:\n        v = mpf_pos(v, prec, rnd)\n    return v",
+  new="    ipart = mpf_round_int(s, round_floor)\n    if not prec:\n        return ipart\n    return mpf_pos(ipart, prec, rnd)",
+  expect='silent')
+
+# ---------------------------------------------------------------- C13 -------
+V(id='c13-acos-fieldwise-normalize', prop='C13', file='mpmath/libmp/libmpc.py',
+  old="    re = mpf_pos(re, prec, rnd)\n    im = mpf_pos(im, prec, rnd)\n    return re, im\n\ndef mpc_acos",
+  new="    re = normalize(re[0], re[1], re[2], re[3], prec, rnd)\n    im = mpf_pos(im, prec, rnd)\n    return re, im\n\ndef mpc_acos",
+  expect='fire:B-R6:acos_asin')
+V(id='c13-log-fieldwise-normalize1', prop='C13', file='mpmath/libmp/libelefun.py',
+  old="        s = mpf_pos(r, prec, rnd)\n", new="        s = normalize1(r[0], r[1], r[2], r[3], prec, rnd)\n",
+  expect='fire:B-R6:mpf_nthroot')
+V(id='c13-benign-unpacked', prop='C13', file='mpmath/libmp/libelefun.py',
+  old="        s = mpf_pos(r, prec, rnd)\n", new="        s = mpf_pos(mpf_pos(r, prec + 2, rnd), prec, rnd)\n",
+  expect='silent')
+
+# ---------------------------------------------------------------- C02 -------
+V(id='c02-add-guard-mismatch', prop='C02', file='mpmath/libmp/libmpf.py',
+  old="                    if delta > prec + 4:\n                        offset = prec + 4\n                        sman <<= offset",
+  new="                    if delta > prec:\n                        offset = prec + 4\n                        sman <<= offset",
+  expect='fire:B-R4i:mpf_add')
+V(id='c02-tie-mask-width', prop='C02', file='mpmath/libmp/libmpf.py',
+  old="        return (MPZ_ONE<<(n-1))-1", new="        return (MPZ_ONE<<n)-1",
+  expect='fire:B-R4m:h_mask_big')
+V(id='c02-div-sticky-dropped', prop='C02', file='mpmath/libmp/libmpf.py',
+  old="    quot, rem = divmod(sman<<extra, tman)\n    if rem:\n        quot = (quot<<1) + 1\n        extra += 1\n        return normalize1(sign, quot, sexp-texp-extra, bitcount(quot), prec, rnd)",
+  new="    quot, rem = divmod(sman<<extra, tman)",
+  expect='fire:B-R4i:mpf_div')
+V(id='c02-sqrt-floor-for-up', prop='C02', file='mpmath/libmp/libmpf.py',
+  old="    if rnd in 'fd':\n        man = isqrt(man<<shift)", new="    if rnd in 'fdu':\n        man = isqrt(man<<shift)",
+  expect='fire:B-R4i:mpf_sqrt')
+V(id='c02-shifts-down-table', prop='C02', file='mpmath/libmp/libmpf.py',
+  old="shifts_down = {round_floor:(1,0), round_ceiling:(0,1),", new="shifts_down = {round_floor:(1,0), round_ceiling:(1,0),",
+  expect='fire:B-R3:shifts_down')
+V(id='c02-negative-rnd-table', prop='C02', file='mpmath/libmp/libmpf.py',
+  old="  round_floor : round_ceiling,\n  round_ceiling : round_floor,\n  round_nearest : round_nearest\n}\n\ndef mpf_pow_int",
+  new="  round_floor : round_floor,\n  round_ceiling : round_ceiling,\n  round_nearest : round_nearest\n}\n\ndef mpf_pow_int",
+  expect='fire:B-R3:negative_rnd')
+V(id='c02-sub-ignores-rnd', prop='C02', file='mpmath/libmp/libmpf.py',
+  old="    return mpf_add(s, t, prec, rnd, 1)", new="    return mpf_add(s, t, prec, round_fast, 1)",
+  expect='fire:B-R3:mpf_sub')
+V(id='c02-rsub-no-rounding-arg', prop='C02', file='mpmath/ctx_mp_python.py',
+  old="            v._mpf_ = mpf_sub(from_int(t), s._mpf_, prec, rounding)", new="            v._mpf_ = mpf_sub(from_int(t), s._mpf_, prec)",
+  expect='fire:B-R3t:__rsub__')
+V(id='c02-mpf-new-early-return', prop='C02', file='mpmath/ctx_mp_python.py',
+  old="            if (not man) and exp:\n                return val\n            v = new(cls)",
+  new="            if not kwargs or ((not man) and exp):\n                return val\n            v = new(cls)",
+  expect='fire:B-R3t:__new__')
+V(id='c02-benign-extra-guard-bits', prop='C02', file='mpmath/libmp/libmpf.py',
+  edits=[("                    if delta > prec + 4:\n                        offset = prec + 4\n                        sman <<= offset",
+          "                    if delta > prec + 6:\n                        offset = prec + 6\n                        sman <<= offset"),
+         ("                    if delta > prec + 4:\n                        offset = prec + 4\n                        tman <<= offset",
+          "                    if delta > prec + 6:\n                        offset = prec + 6\n                        tman <<= offset")],
+  expect='silent')
+
+# ---------------------------------------------------------------- C03 -------
+V(id='c03-pm-always-floor', prop='C03', file='mpmath/libmp/libmpf.py',
+  old="                if rounds_down:\n                    pm = pm >> (pbc-workprec)\n                else:\n                    pm = -((-pm) >> (pbc-workprec))",
+  new="                pm = pm >> (pbc-workprec)",
+  expect='fire:B-R5:mpf_pow_int')
+V(id='c03-inner-no-reciprocal-mode', prop='C03', file='mpmath/libmp/libmpf.py',
+  old="        inverse = mpf_pow_int(s, -n, prec+5, reciprocal_rnd[rnd])", new="        inverse = mpf_pow_int(s, -n, prec+5, rnd)",
+  expect='fire:B-R5:mpf_pow_int')
+V(id='c03-inner-no-guard-bits', prop='C03', file='mpmath/libmp/libmpf.py',
+  old="        inverse = mpf_pow_int(s, -n, prec+5, reciprocal_rnd[rnd])", new="        inverse = mpf_pow_int(s, -n, prec, reciprocal_rnd[rnd])",
+  expect='fire:B-R5:mpf_pow_int')
+V(id='c03-result-sign', prop='C03', file='mpmath/libmp/libmpf.py',
+  old="    result_sign = sign & n", new="    result_sign = sign",
+  expect='fire:B-R5:mpf_pow_int')
+V(id='c03-rounds-down-ignores-sign', prop='C03', file='mpmath/libmp/libmpf.py',
+  old="        shifts_down[rnd][result_sign]\n", new="        shifts_down[rnd][0]\n",
+  expect='fire:B-R5:mpf_pow_int')
+V(id='c03-exact-path-prec', prop='C03', file='mpmath/libmp/libmpf.py',
+  old="    if bc*n < 1000:", new="    if bc*n <= prec:",
+  expect='fire:B-R5:mpf_pow_int')
+V(id='c03-final-mode', prop='C03', file='mpmath/libmp/libmpf.py',
+  old="    return normalize(result_sign, pm, pe, pbc, prec, rnd)\n\n\ndef mpf_perturb",
+  new="    return normalize(result_sign, pm, pe, pbc, prec, round_nearest)\n\n\ndef mpf_perturb",
+  expect='fire:B-R3:mpf_pow_int')
+V(id='c03-benign-more-guard', prop='C03', file='mpmath/libmp/libmpf.py',
+  old="    workprec = prec + 4*bitcount(n) + 4", new="    workprec = prec + 4*bitcount(n) + 8",
+  expect='silent')
+
+# ---------------------------------------------------------------- C04 -------
+V(id='c04-mul-rounded-products', prop='C04', file='mpmath/libmp/libmpc.py',
+  old="    p = mpf_mul(a, c)\n    q = mpf_mul(b, d)\n    r = mpf_mul(a, d)",
+  new="    p = mpf_mul(a, c, prec, rnd)\n    q = mpf_mul(b, d)\n    r = mpf_mul(a, d)",
+  expect='fire:B-R4:mpc_mul')
+V(id='c04-mul-neg-after-round', prop='C04', file='mpmath/libmp/libmpc.py',
+  old="    re = mpf_sub(p, q, prec, rnd)\n    im = mpf_add(r, s, prec, rnd)\n    return re, im",
+  new="    re = mpf_neg(mpf_sub(q, p, prec, rnd))\n    im = mpf_add(r, s, prec, rnd)\n    return re, im",
+  expect='fire:B-R3:mpc_mul')
+V(id='c04-mul-int-mode', prop='C04', file='mpmath/libmp/libmpc.py',
+  old="    im = mpf_mul_int(b, n, prec, rnd)", new="    im = mpf_mul_int(b, n, prec)",
+  expect='fire:B-R3:mpc_mul_int')
+V(id='c04-add-operator-no-rounding', prop='C04', file='mpmath/ctx_mp_python.py',
+  old="        v._mpc_ = mpc_add(s._mpc_, t._mpc_, prec, rounding)", new="        v._mpc_ = mpc_add(s._mpc_, t._mpc_, prec)",
+  expect='fire:B-R3t:__add__')
+V(id='c04-sub-operands-swapped', prop='C04', file='mpmath/ctx_mp_python.py',
+  old="        v._mpc_ = mpc_sub(s._mpc_, t._mpc_, prec, rounding)", new="        v._mpc_ = mpc_sub(t._mpc_, s._mpc_, prec, rounding)",
+  expect='fire:H-C04:__sub__')
+V(id='c04-eq-via-complex', prop='C04', file='mpmath/ctx_mp_python.py',
+  old="        return s.real == t.real and s.imag == t.imag", new="        return complex(s) == complex(t)",
+  expect='fire:H-C04:__eq__')
+V(id='c04-fmul-kernel-prec', prop='C04', file='mpmath/ctx_mp.py',
+  old="                    return ctx.make_mpc(mpc_mul(x._mpc_, y._mpc_, prec, rounding))",
+  new="                    return ctx.make_mpc(mpc_mul(x._mpc_, y._mpc_, prec, 'n'))",
+  expect='fire:B-R3t:fmul')
+V(id='c04-benign-rename', prop='C04', file='mpmath/libmp/libmpc.py',
+  old="    re = mpf_sub(p, q, prec, rnd)\n    im = mpf_add(r, s, prec, rnd)\n    return re, im",
+  new="    x = mpf_sub(p, q, prec, rnd)\n    y = mpf_add(r, s, prec, rnd)\n    return x, y",
+  expect='silent')
+
+# ---------------------------------------------------------------- C07 -------
+V(id='c07-float-detour', prop='C07', file='mpmath/libmp/libmpf.py',
+  old="    man, exp = str_to_man_exp(x, base=10)\n\n    # XXX",
+  new="    if prec <= 53 and rnd == round_nearest:\n        return from_float(float(x), prec, rnd)\n    man, exp = str_to_man_exp(x, base=10)\n\n    # XXX",
+  expect='fire:B-R5:from_str')
+V(id='c07-big-exp-mantissa-rounded', prop='C07', file='mpmath/libmp/libmpf.py',
+  old="        s = from_int(man)\n        s = mpf_mul(s, mpf_pow_int(ften, exp, prec+10, prnd), prec, rnd)",
+  new="        s = from_int(man, prec+10)\n        s = mpf_mul(s, mpf_pow_int(ften, exp, prec+10, prnd), prec, rnd)",
+  expect='fire:B-R5:from_str')
+V(id='c07-big-exp-undirected-power', prop='C07', file='mpmath/libmp/libmpf.py',
+  old="        s = mpf_mul(s, mpf_pow_int(ften, exp, prec+10, prnd), prec, rnd)",
+  new="        s = mpf_mul(s, mpf_pow_int(ften, exp, prec+10), prec, rnd)",
+  expect='fire:B-R5:from_str')
+V(id='c07-moderate-ignores-rnd', prop='C07', file='mpmath/libmp/libmpf.py',
+  old="            s = from_rational(man, 10**-exp, prec, rnd)", new="            s = from_rational(man, 10**-exp, prec)",
+  expect='fire:B-R5:from_str')
+V(id='c07-interval-upper-floor', prop='C07', file='mpmath/libmp/libmpi.py',
+  old="            a = from_str(a, prec, round_floor)\n            b = from_str(b, prec, round_ceiling)",
+  new="            a = from_str(a, prec, round_floor)\n            b = from_str(b, prec, round_floor)",
+  expect='fire:C-R7:mpi_from_str')
+V(id='c07-halfwidth-truncated', prop='C07', file='mpmath/libmp/libmpi.py',
+  old="    y = from_str(y, wp, round_ceiling)\n    assert", new="    y = from_str(y, wp)\n    assert",
+  expect='fire:C-R7:mpi_from_str_a_b')
+V(id='c07-convert-arg-drops-rounding', prop='C07', file='mpmath/ctx_mp_python.py',
+  old="        if isinstance(x, basestring): return from_str(x, prec, rounding)\n        if isinstance(x, cls.context.constant)",
+  new="        if isinstance(x, basestring): return from_str(x, prec)\n        if isinstance(x, cls.context.constant)",
+  expect='fire:B-R3t:mpf_convert_arg')
+V(id='c07-benign-threshold', prop='C07', file='mpmath/libmp/libmpf.py',
+  old="    if abs(exp) > 400:", new="    if abs(exp) > 1000:",
+  expect='silent')
